@@ -53,10 +53,10 @@ def run(ctx):
     if ctx.thorough:
         menu = [("k2a", [1, L], 2), ("k2b", [L], 1), ("k2m1", [1, L], 2), ("k2mat", [1, L], 1),
                 ("k2eps", [L], 1), ("k2w3", [L], 1), ("k3a", [L], 1), ("k3b", [L], 0), ("k2seed", [L], 1),
-                ("k2tiny", [L], 1), ("k2huge", [L], 1), ("k2eps2", [L], 1), ("k2off", [L], 1)]
+                ("k2tiny", [L], 1), ("k2huge", [L], 1), ("k2eps2", [L], 1), ("k2off", [L], 1), ("k2w1", [L], 1), ("k2w1u", [L], 1)]
     else:
         menu = [("k2a", [L], 1), ("k2m1", [2, L], 1), ("k2mat", [L], 0), ("k2seed", [L], 0), ("k2tiny", [L], 0),
-                ("k2huge", [2], 0), ("k2eps2", [2], 0), ("k2off", [2], 0)]
+                ("k2huge", [2], 0), ("k2eps2", [2], 0), ("k2off", [2], 0), ("k2w1", [2], 0), ("k2w1u", [2], 0)]
     ps = ml.e2_plans(ctx, menu, MONS)
     ml.explore(ctx, ps)
     ml.e2_describe(ctx, ps, "Also: three problems with equal (T',K) but different data and estimator (k2a, k2m1, "
